@@ -206,3 +206,31 @@ func (P *Program) targetsOf(id string) []*ssa.Function {
 	}
 	return out
 }
+
+// pkgOfFile: the package whose directory holds the (contract) file, nil for files outside the module.
+func (P *Program) pkgOfFile(file string) *types.Package {
+	if file == "" {
+		return nil
+	}
+	dir := filepath.Dir(file)
+	var found *types.Package
+	seen := map[*packages.Package]bool{}
+	var visit func(p *packages.Package)
+	visit = func(p *packages.Package) {
+		if seen[p] || found != nil {
+			return
+		}
+		seen[p] = true
+		if len(p.GoFiles) > 0 && filepath.Dir(p.GoFiles[0]) == dir && p.Types != nil {
+			found = p.Types
+			return
+		}
+		for _, q := range p.Imports {
+			visit(q)
+		}
+	}
+	for _, p := range P.Pkgs {
+		visit(p)
+	}
+	return found
+}
